@@ -7,6 +7,7 @@ metabooks: (L1) loads(dumps(mb)) describes the same book, (L2) re-serialising is
 """
 import copy
 import json
+import os
 import random
 
 from ..child import exc_detail, exc_key, h64
@@ -24,7 +25,7 @@ ASSUMPTIONS = [
     "item order and nesting)",
     "both nserve.make_collection_id and serve.make_collection_id are checked",
 ]
-REQUIRED = {"roundtrips": 500, "id_invariance_checks": 1000, "id_sensitivity_pairs": 1000, "isolation_rechecks": 200,
+REQUIRED = {"probe_processes_with_other_hash_seed": 6, "roundtrips": 500, "id_invariance_checks": 1000, "id_sensitivity_pairs": 1000, "isolation_rechecks": 200,
             "with_chapters": 100, "with_extra_fields": 100, "non_nfkc_titles": 50}
 LEVEL_TEXT = ("Exploration: 2e4 (quick) / 1e6 (thorough) generated metabooks and request pairs run through the real "
               "serialisation and id code in long-lived processes (so that state carried between requests shows); five "
@@ -183,6 +184,11 @@ def mutate_one(desc, rnd):
     return k, d
 
 
+WIKI_URLS = ["http://w.test/w/", "http://w.test/w", "http://w.test/", "http://w.test/de/", "http://w.test/en/", "http://w.test/hi/",
+             "http://w.test/id/", "http://w.test/w/index.php", "http://w.test/wiki/", "https://w.test/w/", "http://w.test/pl/",
+             "http://w.test/nn/", "http://de.w.test/w/", "http://w.test:8080/w/", "http://w.test/w/?x", "http://w.test/W/"]
+
+
 def plan(tier, seed):
     n = 16
     per = 150 if tier == "quick" else 8000
@@ -198,7 +204,9 @@ def run_shard(desc_, R):
     from mwlib.utils import myjson
     rnd = random.Random("C13:%s:%s" % (desc_["seed"], desc_["shard"]))
     earlier = []        # (objects, their description at build time) for the isolation re-check
-    idfuncs = [("nserve", nserve.make_collection_id), ("serve", serve.make_collection_id)]
+    idfuncs = [("nserve", nserve.make_collection_id), ("serve", serve.make_collection_id),
+               # the request-level entry point of the render server
+               ("app", lambda params: nserve.Application().new_collection(params))]
 
     def cid(fn, params):
         with contextlib.redirect_stdout(io.StringIO()):
@@ -209,6 +217,23 @@ def run_shard(desc_, R):
              "metabook": json.dumps(gen_desc(random.Random("C13:probe:%s" % desc_["seed"]), 6))}
     for name, fn in idfuncs:
         R.seen("probe_id_" + name, cid(fn, probe))
+    if desc_["shard"] < 4:
+        # the same probe in fresh interpreters with other string-hash seeds (a restarted or second server process)
+        import subprocess
+        import sys
+        code = ("import sys,json,io,contextlib\nfrom mwlib.core import nserve, serve\np=json.loads(sys.argv[1])\n"
+                "o={}\nwith contextlib.redirect_stdout(io.StringIO()):\n"
+                "    o['nserve']=nserve.make_collection_id(p); o['serve']=serve.make_collection_id(p); o['app']=nserve.Application().new_collection(p)\n"
+                "print('IDS '+json.dumps(o))")
+        for hs in (str(1 + desc_["shard"] * 3), str(2 + desc_["shard"] * 3), "random"):
+            env = dict(os.environ, PYTHONHASHSEED=hs)
+            pr = subprocess.run([sys.executable, "-c", code, json.dumps(probe)], env=env, stdout=subprocess.PIPE,
+                                stderr=subprocess.PIPE, timeout=300)
+            for line in pr.stdout.decode().splitlines():
+                if line.startswith("IDS "):
+                    for k, v in json.loads(line[4:]).items():
+                        R.seen("probe_id_" + k, v)
+                    R.count("probe_processes_with_other_hash_seed")
 
     for _ in range(desc_["count"]):
         d = gen_desc(rnd, rnd.choice((2, 6, 12, 30)))
@@ -268,6 +293,17 @@ def run_shard(desc_, R):
                     R.count("id_sensitivity_pairs")
                     if other == the_id:
                         R.violation("L4:id-insensitive:%s:%s" % (key, name), "requests differing in %s get the same collection id" % key, case)
+                # wikis of one farm: pairwise different URLs, pairwise different ids
+                urls = rnd.sample(WIKI_URLS, 4)
+                seen_ids = {}
+                for u in urls:
+                    i = cid(fn, dict(base, metabook=encs[0], base_url=u))
+                    R.count("id_sensitivity_pairs")
+                    if i in seen_ids:
+                        R.violation("L4:id-insensitive:base_url-variant:%s" % name,
+                                    "wikis %r and %r get the same collection id for one metabook" % (seen_ids[i], u), case)
+                        break
+                    seen_ids[i] = u
         except Exception as e:
             R.violation("raises:" + exc_key(e), "%s: %s" % (type(e).__name__, str(e)[:100]), case, exc_detail(e))
             R.case(h64(flat), nitems >= 2)
@@ -320,7 +356,7 @@ def diff_text(a, b):
 
 def finish(S, tier):
     """cross-process determinism of the id"""
-    for k in ("probe_id_nserve", "probe_id_serve"):
+    for k in ("probe_id_nserve", "probe_id_serve", "probe_id_app"):
         ids = S["sets"].get(k, set())
         if len(ids) > 1:
             S["violations"].append({"key": "L3:id-differs-between-processes", "what": "%s: %d different ids for one request across shard processes" % (k, len(ids)),
